@@ -11,7 +11,7 @@ import traceback
 CHECKS = {
     "C11": ("harness.checks.c11", "C11"),
     "C19": ("harness.checks.c19", "C19"),
-    "C04": ("harness.checks.relayfam", "C04"),
+    "C04": [("harness.checks.relayfam", "C04"), ("harness.checks.storefam", "C04")],
     "C16": ("harness.checks.c16", "C16"),
     "C15": ("harness.checks.authfam", "C15"),
     "C14": ("harness.checks.authfam", "C14"),
